@@ -89,7 +89,8 @@ def r1(ctx):
     ren2 = {a0: 'a0', a1: 'a1', b0: 'b0', b1: 'b1'}
     atom2 = lambda x: ren2.get(src(x))
     srt = lambda e: e['a0'] < e['a1'] and e['b0'] < e['b1'] and (e['a0'], e['a1']) <= (e['b0'], e['b1'])
-    ifs = [s for s in l.body if isinstance(s, ast.If) and any(isinstance(x, ast.Yield) for b in s.body for x in walk_no_nested(b)) and s.orelse]
+    ifs = [s for s in walk_no_nested(l) if isinstance(s, ast.If) and any(isinstance(x, ast.Yield) for b in s.body for x in walk_no_nested(b))
+           and any(isinstance(x, ast.Yield) for b in s.orelse for x in walk_no_nested(b))]
     if len(ifs) != 1:
         ctx.emit('C17-R1', False, BINCOUNTS, g, 'merge decision not found', key='merge-predicate', undecided=True)
     else:
@@ -110,7 +111,24 @@ def r1(ctx):
         ok = len(oy) == 1 and src(oy[0].value).replace('(', '').replace(')', '') == f'{a0}, {a1}'
         ctx.emit('C17-R1', ok, BINCOUNTS, ifs[0], 'non-overlapping range is passed through unchanged', key='merge-passthrough', nontrivial=False)
     mo = ctx.fn(BINCOUNTS, 'merge_overlapping_ranges')
-    ok = any(isinstance(w, ast.While) and 'range_contains_overlap' in src(w.test) for w in walk_no_nested(mo)) and 'sorted(' in src(mo.body[0])
+    # every return of the merged list happens where range_contains_overlap(<that list>) is false: after `while range_contains_overlap(x):`
+    # or under `if not range_contains_overlap(x): return x` inside the loop; the list is sorted before each overlap test
+    from ..util import reach_conds
+    rets = [r_ for r_ in walk_no_nested(mo) if isinstance(r_, ast.Return)]
+    whiles = [w for w in walk_no_nested(mo) if isinstance(w, ast.While)]
+    ok = bool(rets) and len(whiles) == 1
+    for r_ in rets:
+        rv = src(r_.value) if r_.value is not None else None
+        guard = f'range_contains_overlap({rv})'
+        inside = any(x is r_ for x in walk_no_nested(whiles[0])) if whiles else False
+        if inside:
+            conds = [(t_.operand, not pol) if isinstance(t_, ast.UnaryOp) and isinstance(t_.op, ast.Not) else (t_, pol) for t_, pol in (reach_conds(whiles[0].body, r_) or [])]
+            ok = ok and any(src(t_) == guard and pol is False for t_, pol in conds)
+        else:
+            ok = ok and bool(whiles) and src(whiles[0].test) == guard and not any(isinstance(x, ast.Break) for x in walk_no_nested(whiles[0]))
+    asg = [a_ for a_ in walk_no_nested(mo) if isinstance(a_, ast.Assign)]
+    ok = ok and bool(asg) and all(isinstance(a_.value, ast.Call) and dotted(a_.value.func) == 'sorted' for a_ in asg) and \
+        any('_merge_overlapping_ranges(' in src(a_.value) for a_ in asg)
     ctx.emit('C17-R1', ok, BINCOUNTS, mo, 'merge_overlapping_ranges sorts and merges until no overlap remains', key='merge-fixpoint', nontrivial=False)
     # blacklisted_binning uses them
     b = ctx.fn(BINCOUNTS, FN)
